@@ -213,4 +213,101 @@ m('c10-twin-dict-copy', 'C10', 'neutral', APFL, 'adaptive_personalized_federated
 m('c10-twin-seeded-rs', 'C10', 'neutral', MIME, 'mime.apply', "client_diagnostics = {}",
   "client_diagnostics = {}\norder = sorted(range(len(clients)))")
 
+# ---------------------------------------------------------------- C01
+AP = 'federated_averaging.apply'
+ACC = "delta_params_sum = tree_util.tree_add(delta_params_sum, tree_util.tree_weight(delta_params, num_examples))"
+m('c01-weight-one', ['C01', 'C12'], 'break', FEDAVG, AP, ACC,
+  "delta_params_sum = tree_util.tree_add(delta_params_sum, tree_util.tree_weight(delta_params, 1.0))", expect='R-WMEAN')
+m('c01-count-clients', ['C01', 'C12'], 'break', FEDAVG, AP, "num_examples_sum += num_examples", "num_examples_sum += 1",
+  expect='R-WMEAN')
+m('c01-normalise-len', ['C01', 'C12'], 'break', FEDAVG, AP,
+  "tree_util.tree_inverse_weight(delta_params_sum, num_examples_sum)",
+  "tree_util.tree_inverse_weight(delta_params_sum, len(clients))", mode='expr', expect='R-WMEAN')
+m('c01-other-client-weight', ['C01', 'C12'], 'break', FEDAVG, AP, "num_examples = client_num_examples[client_id]",
+  "num_examples = client_num_examples[clients[0][0]]", expect='R-WMEAN')
+m('c01-const-table', ['C01', 'C12'], 'break', FEDAVG, AP,
+  "client_num_examples = {cid: len(cds) for cid, cds, _ in clients}",
+  "client_num_examples = {cid: 1 for cid, cds, _ in clients}", expect='R-WMEAN')
+m('c01-unweighted-add', ['C01', 'C12'], 'break', FEDAVG, AP, ACC,
+  "delta_params_sum = tree_util.tree_add(delta_params_sum, delta_params)", expect='R-WMEAN')
+m('c01-nonzero-init', ['C01', 'C12'], 'break', FEDAVG, AP,
+  "delta_params_sum = tree_util.tree_zeros_like(server_state.params)", "delta_params_sum = server_state.params",
+  expect='R-WMEAN')
+m('c01-skip-big-clients', ['C01', 'C12'], 'break', FEDAVG, AP, "num_examples_sum += num_examples",
+  "if num_examples < 1000:\n  num_examples_sum += num_examples", expect='R-WMEAN')
+m('c01-drop-small-clients', ['C01', 'C12'], 'break', FEDAVG, AP, "num_examples = client_num_examples[client_id]",
+  "num_examples = client_num_examples[client_id]\nif num_examples < 2:\n  continue", expect='R-')
+m('c01-zero-guard-dropped', ['C01', 'C07'], 'break', TU, 'tree_inverse_weight',
+  "inverse_weight = 1.0 / weight if weight > 0.0 else 0.0", "inverse_weight = 1.0 / weight", expect='R-DIV')
+m('c01-delta-swapped', ['C01', 'C12'], 'break', FEDAVG, 'create_train_for_each_client.client_final',
+  "jax.tree_util.tree_map(lambda a, b: a - b, server_params, client_step_state['params'])",
+  "jax.tree_util.tree_map(lambda a, b: a - b, client_step_state['params'], server_params)", mode='expr',
+  expect='R-SIB.delta')
+m('c01-delta-lambda-swapped', ['C01', 'C12'], 'break', FEDAVG, 'create_train_for_each_client.client_final',
+  "lambda a, b: a - b", "lambda a, b: b - a", mode='expr', expect='R-SIB.delta')
+m('c01-stale-params', ['C01', 'C12'], 'break', FEDAVG, 'create_train_for_each_client.client_step',
+  "next_client_step_state = {'params': params, 'opt_state': opt_state, 'rng': rng}",
+  "next_client_step_state = {'params': client_step_state['params'], 'opt_state': opt_state, 'rng': rng}",
+  expect='R-SIB.opt-result-params')
+m('c01-stale-opt-state', ['C01', 'C12'], 'break', FEDAVG, 'create_train_for_each_client.client_step',
+  "next_client_step_state = {'params': params, 'opt_state': opt_state, 'rng': rng}",
+  "next_client_step_state = {'params': params, 'opt_state': client_step_state['opt_state'], 'rng': rng}",
+  expect='R-SIB.opt-result-state')
+m('c01-key-not-advanced', ['C01', 'C12'], 'break', FEDAVG, 'create_train_for_each_client.client_step',
+  "next_client_step_state = {'params': params, 'opt_state': opt_state, 'rng': rng}",
+  "next_client_step_state = {'params': params, 'opt_state': opt_state, 'rng': client_step_state['rng']}",
+  expect='R-')
+m('c01-key-reused', ['C01', 'C12'], 'break', FEDAVG, 'create_train_for_each_client.client_step',
+  "next_client_step_state = {'params': params, 'opt_state': opt_state, 'rng': rng}",
+  "next_client_step_state = {'params': params, 'opt_state': opt_state, 'rng': use_rng}", expect='R-')
+m('c01-grad-at-start', ['C01'], 'break', FEDAVG, 'create_train_for_each_client', "def client_init(server_params, client_rng):\n  opt_state = client_optimizer.init(server_params)\n  client_step_state = {'params': server_params, 'opt_state': opt_state, 'rng': client_rng}\n  return client_step_state",
+  "def client_init(server_params, client_rng):\n  opt_state = client_optimizer.init(server_params)\n  client_step_state = {'params': server_params, 'opt_state': opt_state, 'rng': client_rng, 'start': server_params}\n  return client_step_state") if False else None
+m('c01-server-state-swapped', ['C01', 'C12'], 'break', FEDAVG, 'federated_averaging.server_update',
+  "return ServerState(params, opt_state)", "return ServerState(opt_state, params)", expect='R-SIB.state-ctor')
+m('c01-server-args-swapped', ['C01', 'C12'], 'break', FEDAVG, 'federated_averaging.server_update',
+  "server_optimizer.apply(mean_delta_params, server_state.opt_state, server_state.params)",
+  "server_optimizer.apply(mean_delta_params, server_state.params, server_state.opt_state)", mode='expr',
+  expect='R-SIB.server-args')
+m('c01-diag-skipped', ['C01'], 'break', FEDAVG, AP,
+  "client_diagnostics[client_id] = {'delta_l2_norm': tree_util.tree_l2_norm(delta_params)}",
+  "if num_examples > 0:\n  client_diagnostics[client_id] = {'delta_l2_norm': tree_util.tree_l2_norm(delta_params)}",
+  expect='R-YIELD1')
+m('c01-diag-wrong-key', ['C01'], 'break', FEDAVG, AP,
+  "client_diagnostics[client_id] = {'delta_l2_norm': tree_util.tree_l2_norm(delta_params)}",
+  "client_diagnostics[len(client_diagnostics)] = {'delta_l2_norm': tree_util.tree_l2_norm(delta_params)}",
+  expect='R-YIELD1')
+m('c01-same-key-all-clients', ['C01'], 'break', FEDAVG, AP,
+  "batch_clients = [(cid, cds.shuffle_repeat_batch(client_batch_hparams), crng) for cid, cds, crng in clients]",
+  "batch_clients = [(cid, cds.shuffle_repeat_batch(client_batch_hparams), clients[0][2]) for cid, cds, crng in clients]",
+  expect='R-')
+m('c01-wrong-dataset', ['C01'], 'break', FEDAVG, AP,
+  "batch_clients = [(cid, cds.shuffle_repeat_batch(client_batch_hparams), crng) for cid, cds, crng in clients]",
+  "batch_clients = [(cid, clients[0][1].shuffle_repeat_batch(client_batch_hparams), crng) for cid, cds, crng in clients]",
+  expect='R-SIB.tuples')
+m('c01-opt-init-elsewhere', ['C01', 'C12'], 'break', FEDAVG, 'create_train_for_each_client.client_init',
+  "opt_state = client_optimizer.init(server_params)",
+  "opt_state = client_optimizer.init(jax.tree_util.tree_map(jnp.zeros_like, server_params))") if False else None
+m('c01-twin-add-order', ['C01', 'C12'], 'neutral', FEDAVG, AP, ACC,
+  "delta_params_sum = tree_util.tree_add(tree_util.tree_weight(delta_params, num_examples), delta_params_sum)")
+m('c01-twin-w-plus', ['C01', 'C12'], 'neutral', FEDAVG, AP, "num_examples_sum += num_examples",
+  "num_examples_sum = num_examples_sum + num_examples")
+m('c01-twin-skip-zero', ['C01', 'C12'], 'neutral', FEDAVG, AP,
+  "client_diagnostics[client_id] = {'delta_l2_norm': tree_util.tree_l2_norm(delta_params)}",
+  "client_diagnostics[client_id] = {'delta_l2_norm': tree_util.tree_l2_norm(delta_params)}\nif num_examples == 0:\n  continue")
+_E.pop()
+multi('c01-twin-skip-zero', ['C01', 'C12'], 'neutral', [
+    dict(file=FEDAVG, func=AP, old="num_examples = client_num_examples[client_id]",
+         new="num_examples = client_num_examples[client_id]\nclient_diagnostics[client_id] = {'delta_l2_norm': tree_util.tree_l2_norm(delta_params)}\nif num_examples == 0:\n  continue"),
+    dict(file=FEDAVG, func=AP, occurrence=1,
+         old="client_diagnostics[client_id] = {'delta_l2_norm': tree_util.tree_l2_norm(delta_params)}", new="pass"),
+])
+m('c01-twin-subtract', ['C01', 'C12'], 'neutral', FEDAVG, 'create_train_for_each_client.client_final',
+  "lambda a, b: a - b", "jnp.subtract", mode='expr') if False else None
+m('c01-twin-rename', ['C01', 'C12'], 'neutral', FEDAVG, 'create_train_for_each_client.client_step',
+  "rng, use_rng = jax.random.split(client_step_state['rng'])",
+  "rng, use_rng = jax.random.split(client_step_state['rng'], 2)")
+m('c01-twin-extra-diag', ['C01'], 'neutral', FEDAVG, AP,
+  "client_diagnostics[client_id] = {'delta_l2_norm': tree_util.tree_l2_norm(delta_params)}",
+  "client_diagnostics[client_id] = {'delta_l2_norm': tree_util.tree_l2_norm(delta_params), 'n': num_examples}")
+
 _E[:] = [e for e in _E if e is not None]
